@@ -204,43 +204,40 @@ theorem C13_key_canonical :
 
 /-! ## Second sentence: enforcement (decision logic of neutrino.go) -/
 
-/-- **C13, enforcement clause, as stated**: after any sequence of
-outbound-connected / version / add-peer / ban-peer (misbehaviour detected) /
-unban / peer-done events at non-decreasing times, no peer in the connected set
-has an address that `IsBanned` reports banned at that time.  FALSE of the code
-when two peers share an IP address (different ports): `BanPeer` bans the IP
-network but disconnects only `PeerByAddr(addr)`, the peer with exactly that
-address string — see `C13_enforced_counterexample`. -/
-def C13_enforced : Prop :=
-  ∀ (T0 : Int) (evs : EvHist) (now : Int), monoEv T0 evs → endEv T0 evs ≤ now →
-    ∀ p, p ∈ (runNet {} evs).connected → (isBanned (runNet {} evs).store now p).2 = false
+/-- **C13, enforcement clause, as stated, at full strength**: after any
+sequence of outbound-connected / version / add-peer / ban-peer (misbehaviour
+detected) / unban / peer-done events at non-decreasing times — any peers, any
+addresses, several peers on one IP included — no peer in the connected set has
+an address that `IsBanned` reports banned at that time.  (Before the repair
+`fix: BanPeer disconnects every connected peer of the banned network` this was
+false: `BanPeer` banned the IP network but disconnected only `PeerByAddr(addr)`;
+the history `exEvs` below was the counterexample and is now a regression
+`example`.) -/
+theorem C13_enforced (T0 : Int) (evs : EvHist) (now : Int) (hm : monoEv T0 evs) (hn : endEv T0 evs ≤ now) :
+    ∀ p, p ∈ (runNet {} evs).connected → (isBanned (runNet {} evs).store now p).2 = false := by
+  have hc : Clean (runNet {} evs) (endEv T0 evs) :=
+    clean_run {} T0 evs (fun _ hp => absurd hp (by simp)) hm
+  exact fun p hp => not_banned_of_clean _ _ _ hn hc p hp
 
 def exPeerA : Peer := ⟨v4Prefix ++ [127, 0, 0, 1], 18444⟩
 def exPeerB : Peer := ⟨v4Prefix ++ [127, 0, 0, 1], 18445⟩
-/-- two nodes on one host: both connect, A misbehaves and is banned -/
+def exPeerC : Peer := ⟨v4Prefix ++ [127, 0, 0, 2], 18444⟩
+/-- two nodes on one host and one elsewhere: all connect, A misbehaves and is banned -/
 def exEvs : EvHist :=
   [(0, .outbound exPeerA), (1, .version exPeerA 1101), (2, .addPeer exPeerA),
    (3, .outbound exPeerB), (4, .version exPeerB 1101), (5, .addPeer exPeerB),
-   (6, .banPeer exPeerA 5)]
+   (6, .outbound exPeerC), (7, .version exPeerC 1101), (8, .addPeer exPeerC),
+   (9, .banPeer exPeerA 5)]
 
-/-- 127.0.0.1:18445 stays connected although 127.0.0.1 is banned. -/
-theorem C13_enforced_counterexample : ¬ C13_enforced := by
-  intro h
-  have h1 := h 0 exEvs 6 (by simp [monoEv, exEvs]) (by decide) exPeerB (by decide)
-  revert h1
-  decide
-
-/-- **What the code does guarantee**: the full statement for every event
-sequence in which no two peers denote the same IP network (`OnePerHost` on the
-peers occurring in the events: equal store keys ⇒ equal peer). -/
-theorem C13_enforced_partial (T0 : Int) (evs : EvHist) (now : Int)
-    (hone : OnePerHost (fun p => ∃ x, x ∈ evs ∧ x.2.peer = p))
-    (hm : monoEv T0 evs) (hn : endEv T0 evs ≤ now) :
-    ∀ p, p ∈ (runNet {} evs).connected → (isBanned (runNet {} evs).store now p).2 = false := by
-  have hc : Clean (runNet {} evs) (endEv T0 evs) :=
-    clean_run hone {} T0 evs (fun _ hp => absurd hp (by simp)) (fun _ hp => absurd hp (by simp))
-      (fun x hx => ⟨x, hx, rfl⟩) hm
-  exact fun p hp => not_banned_of_clean _ _ _ hn hc p hp
+/-- **`BanPeer` empties the banned network**: afterwards no connected peer's
+address has the banned key — the reported peer and every other peer on that IP
+are gone, peers elsewhere stay. -/
+theorem C13_banPeer_clears_network (n : Net) (t : Int) (p q : Peer) (reason : Nat) (k : Bytes)
+    (hp : keyOf p.target = some k) (hq : keyOf q.target = some k) :
+    q ∉ (stepNet n t (.banPeer p reason)).connected ∧
+    (∀ r, r ∈ (stepNet n t (.banPeer p reason)).connected → r ∈ n.connected) := by
+  simp only [stepNet, banPeer]
+  exact ⟨not_mem_afterBan_of_key hp hq, fun r hr => (mem_afterBan hr).1⟩
 
 /-- **A peer that does not offer WITNESS and CF is banned and dropped**: in
 every state, `OnVersion` on a pending peer whose service bits lack either flag
@@ -263,7 +260,7 @@ theorem C13_version_enforced (n : Net) (t : Int) (p : Peer) (services : Nat) (k 
       simp only [lookup_put_self]
       have : ¬ (t ≥ (t + banDurationMs) / 1000 * 1000) := by simp only [banDurationMs]; omega
       simp only [this, ↓reduceIte]
-    refine ⟨⟨_, congrArg Prod.snd hst⟩, ?_, not_mem_without _ _, not_mem_without _ _⟩
+    refine ⟨⟨_, congrArg Prod.snd hst⟩, ?_, not_mem_without _ _, not_mem_afterBan _ _⟩
     simp only [isBanned, hst]
   · intro hr
     simp only [stepNet, hp, ↓reduceIte, hr]
@@ -275,7 +272,7 @@ theorem C13_banPeer_enforced (n : Net) (t : Int) (p : Peer) (reason : Nat) (k : 
     let n' := stepNet n t (.banPeer p reason)
     p ∉ n'.connected ∧ ∃ e, (step n'.store t (.status p.target)).2 = .banned reason e := by
   simp only [stepNet, banPeer]
-  refine ⟨not_mem_without _ _, (t + banDurationMs) / 1000 * 1000, ?_⟩
+  refine ⟨not_mem_afterBan _ _, (t + banDurationMs) / 1000 * 1000, ?_⟩
   rw [step_status_some _ _ _ k hk, step_ban_some _ _ _ _ _ k hk]
   simp only [lookup_put_self]
   have : ¬ (t ≥ (t + banDurationMs) / 1000 * 1000) := by simp only [banDurationMs]; omega
@@ -303,7 +300,8 @@ SECONDS of `now + duration`; `Status` deletes when `!now.Before(expiry)`;
 `Disconnect`, return; `handleAddPeerMsg` and `outboundPeerConnected` test
 `IsBanned` before recording / creating the peer; `IsBanned` and `BanPeer` go
 through `ParseIPNet(addr, nil)` and the store with `BanDuration`; `BanPeer`
-disconnects `PeerByAddr(addr)`; every other `BanPeer` call site passes one of
+disconnects `PeerByAddr(addr)` and then every peer of `s.Peers()` whose address
+parses (`ParseIPNet(sp.Addr(), nil)`) to the banned network; every other `BanPeer` call site passes one of
 the "provably invalid" reasons. -/
 theorem C13_source_facts :
     Gen.Ban.ipv4Type = 0 ∧ Gen.Ban.ipv6Type = 1 ∧
@@ -318,17 +316,17 @@ theorem C13_source_facts :
     Gen.Ban.requiredServiceFlags = ["wire.SFNodeWitness", "wire.SFNodeCF"] ∧
     Gen.Ban.addPeerRefusesBanned = true ∧ Gen.Ban.outboundRefusesBanned = true ∧
     Gen.Ban.isBannedUsesStore = true ∧ Gen.Ban.banPeerUsesStore = true ∧ Gen.Ban.banPeerDisconnects = true ∧
+    Gen.Ban.banPeerDisconnectsNetwork = true ∧
     (∀ s, s ∈ Gen.Ban.banPeerSites → s ∈ ["query.go:banman.InvalidBlock", "blockmanager.go:banman.InvalidFilterHeader",
       "blockmanager.go:banman.InvalidFilterHeaderCheckpoint"]) ∧
     Gen.Ban.banPeerSites.length = 8 := by decide
 
 /-! ### Non-vacuity (enforcement) -/
-example : OnePerHost (fun p => ∃ x, x ∈ ([(0, .outbound exPeerA), (1, .version exPeerA 8)] : EvHist) ∧ x.2.peer = p) := by
-  intro p q ⟨x, hx, hxp⟩ ⟨y, hy, hyq⟩ _ _
-  simp only [List.mem_cons, List.not_mem_nil, or_false] at hx hy
-  rcases hx with rfl | rfl <;> rcases hy with rfl | rfl <;> simp_all [Ev.peer]
 example : hasRequired 1101 = true ∧ hasRequired 1037 = false ∧ hasRequired 8 = false := by decide
-example : (runNet {} exEvs).connected = [exPeerB] := by decide
+example : monoEv 0 exEvs := by simp [monoEv, exEvs]
+/-- regression: the former counterexample — B (same IP as A, other port) is dropped with A, C stays -/
+example : (runNet {} exEvs).connected = [exPeerC] := by decide
+example : (isBanned (runNet {} exEvs).store 9 exPeerB).2 = true ∧ (isBanned (runNet {} exEvs).store 9 exPeerC).2 = false := by decide
 example : (runNet {} [(0, .outbound exPeerA), (1, .version exPeerA 1037), (2, .addPeer exPeerA)]).connected = [] ∧
     (isBanned (runNet {} [(0, .outbound exPeerA), (1, .version exPeerA 1037)]).store 5 exPeerA).2 = true := by decide
 example : keyOf exPeerA.target = some [0, 127, 0, 0, 1, 255, 255, 255, 255] := by decide
